@@ -112,6 +112,9 @@ fn one_case<const N: usize>(ctx: &mut Ctx, idx: usize) {
     if ctx.expect(&op, &[Real::G1(sig_w.sigma1()), Real::G1(sig_w.sigma2())]) {
         let _ = verify_check(ctx, kp.public_key(), &kpd.pk, &sig_w, &ms, Some(false), "request-signed-wrong-bf");
     }
+    // a request carrying a curve point outside the prime-order subgroup (or off the curve) must not even decode:
+    // blind-signing it would sign a value no proof is about
+    crate::codec::bad_point_decode_probe::<zkchannels_crypto::proofs::SignatureRequestProof<N>>(ctx, "signature-request", &crate::codec::cp("A", N), &wire::ser(&_proof));
     // tampered requests must yield no blind-signable value
     for (label, q, cc) in tamperings(ctx, &pd, &c) {
         let kind = label.split('#').next().unwrap().trim_end_matches(char::is_numeric).to_string();
